@@ -635,18 +635,58 @@ def disp6(ctx) -> List[Ob]:
     handled: Dict[str, str] = {}
     chains = find_class_chains(fn.node, params[0])
     subj, arms = chains[0]
+    def _kind_test(t: ast.AST, kind: str):
+        """truth of a test over `<block>.kind` for one kind; None when the test reads something else"""
+        if isinstance(t, ast.UnaryOp) and isinstance(t.op, ast.Not):
+            v = _kind_test(t.operand, kind)
+            return None if v is None else not v
+        if isinstance(t, ast.BoolOp):
+            vs = [_kind_test(x, kind) for x in t.values]
+            if isinstance(t.op, ast.And):
+                return False if False in vs else (None if None in vs else True)
+            return True if True in vs else (None if None in vs else False)
+        if isinstance(t, ast.Compare) and len(t.ops) == 1 and isinstance(t.left, ast.Attribute) and t.left.attr == "kind":
+            r = t.comparators[0]
+            if isinstance(t.ops[0], (ast.Eq, ast.NotEq)) and isinstance(r, ast.Constant):
+                v = r.value == kind
+                return v if isinstance(t.ops[0], ast.Eq) else not v
+            if isinstance(t.ops[0], (ast.In, ast.NotIn)) and isinstance(r, (ast.Tuple, ast.List, ast.Set)) and all(isinstance(e_, ast.Constant) for e_ in r.elts):
+                v = kind in [e_.value for e_ in r.elts]
+                return v if isinstance(t.ops[0], ast.In) else not v
+        return None
+
+    def _run_kind(stmts, kind: str) -> str:
+        """'refused' when a run of the arm for this kind reaches a refusing statement before anything else
+        can end it, 'handled' otherwise (abstract run over the tests on `.kind`; other tests take both ways)"""
+        for st in stmts:
+            if isinstance(st, ast.Raise):
+                return "refused" if refusing_body([st]) else "handled"
+            if isinstance(st, ast.Return):
+                return "handled"
+            if isinstance(st, ast.If):
+                v = _kind_test(st.test, kind)
+                if v is True:
+                    r = _run_kind(st.body, kind)
+                    if r != "fall":
+                        return r
+                elif v is False:
+                    r = _run_kind(st.orelse, kind)
+                    if r != "fall":
+                        return r
+                else:
+                    rb, ro = _run_kind(st.body, kind), _run_kind(st.orelse, kind)
+                    if rb == ro and rb != "fall":
+                        return rb
+                    if "refused" in (rb, ro) and ".kind" in A.unparse(st.test):
+                        return "refused"
+        return "fall"
+
     for arm in arms:
         if arm.test is not None and "RegionBlock" in _named_classes(arm.test):
-            for n in A.walk_no_nested(ast.Module(arm.body, [])):
-                if isinstance(n, ast.If):
-                    for a in chain_arms(n):
-                        if a.test is None:
-                            continue
-                        if ".kind" in A.unparse(a.test) and not refusing_body(a.body):
-                            for c in ast.walk(a.test):
-                                if isinstance(c, ast.Constant) and isinstance(c.value, str):
-                                    handled[c.value] = A.unparse(a.test)[:60]
-                    break
+            mentioned = {c.value for n in A.walk_no_nested(ast.Module(arm.body, [])) if isinstance(n, ast.If) and ".kind" in A.unparse(n.test) for c in ast.walk(n.test) if isinstance(c, ast.Constant) and isinstance(c.value, str)}
+            for kind_ in set(kinds) | mentioned:
+                if kind_ in mentioned and _run_kind(arm.body, kind_) != "refused":
+                    handled[kind_] = "abstract run of the region arm over the tests on .kind"
     for kind, sites in sorted(kinds.items()):
         key = f"region kind '{kind}'"
         where = sites[0]
